@@ -17,8 +17,8 @@ EXTENDS Triggers, Json, IOUtils
 Trace == ndJsonDeserialize(IOEnv.VERIF_TRACE)
 N     == Len(Trace)
 
-VARIABLES l, tc, asked
-vars == <<l, tc, asked>>
+VARIABLES l, tc, asked, askFailed
+vars == <<l, tc, asked, askFailed>>
 
 E       == Trace[l]
 HasE    == l <= N
@@ -40,7 +40,10 @@ Q     == { [id |-> <<p.ns, p.name>>, ok |-> KeyOK(p), key |-> p.key] : p \in Ran
 QIds  == { [id |-> x.id, ok |-> x.ok] : x \in Q }
 U     == { Id(p) : p \in P } \cup QueuedAny(QIds)
            \cup { Id(Obj(Evs[i])) : i \in { j \in DOMAIN Evs : IsParentEv(tc, Evs[j]) } }
-MustB == UNION { Must(tc, Evs[i], P, asked) : i \in DOMAIN Evs }
+\* a parent whose customize call FAILED during this step has no rules in force (the handlers skip it "for now"): nothing
+\* is demanded for it in this step; which of the step's events a hook call served is not recorded
+FailedIds == { Id(q) : q \in { x \in P : CacheKey(x) \in askFailed } }
+MustB == (UNION { Must(tc, Evs[i], P, asked) : i \in DOMAIN Evs }) \ FailedIds
 \* forbidden for the whole batch: forbidden by every delivered event (one event per step as a rule)
 MustNotB ==
   (IF Evs = <<>> THEN { Id(q) : q \in { x \in P : ~Cares(tc, x) } }
@@ -68,7 +71,7 @@ C14_KeyParses ==
 \* ---- model drift (not a verdict): the handlers as modelled in Triggers!Code, in the variant as
 \* written or in the intended variant, queue exactly what the real handlers queued
 Drift_C14 ==
-  (QueueE /\ Len(Evs) = 1)
+  (QueueE /\ Len(Evs) = 1 /\ askFailed = {})      \* (the code model has no failing customize calls)
   => \/ QueuedAny(QIds) = QueuedAny(Code(tc, Evs[1], P, asked, FALSE))
      \/ QueuedAny(QIds) = QueuedAny(Code(tc, Evs[1], P, asked, TRUE))
      \/ ReportS("DRIFT", "Drift_C14", "-", <<"real", QueuedAny(QIds), "model", QueuedAny(Code(tc, Evs[1], P, asked, FALSE)), "events", Types>>)
@@ -79,17 +82,19 @@ Machinery ==
   /\ (IsEv("Queue") /\ E.via = "direct") => (Len(E.evs) <= 1 \/ Broken("direct step with several events", Types))
 
 \* ---- state -----------------------------------------------------------------------------------
-Init == l = 1 /\ tc = NoTc /\ asked = <<>>
+Init == l = 1 /\ tc = NoTc /\ asked = <<>> /\ askFailed = {}
 Next ==
   /\ HasE
   /\ l' = l + 1
-  /\ CASE E.ev = "Reset"   -> tc' = NoTc /\ asked' = <<>>
-       [] E.ev = "TrigCfg" -> tc' = E.tc /\ UNCHANGED asked
+  /\ CASE E.ev = "Reset"   -> tc' = NoTc /\ asked' = <<>> /\ askFailed' = {}
+       [] E.ev = "TrigCfg" -> tc' = E.tc /\ UNCHANGED <<asked, askFailed>>
+       [] E.ev = "Queue"   -> askFailed' = {} /\ UNCHANGED <<tc, asked>>
        [] E.ev = "Hook"    -> /\ UNCHANGED tc
                               /\ asked' = IF E.hook = "customize" /\ E.rulesOK
                                           THEN (CacheKey(E.req.parent) :> E.rules) @@ asked ELSE asked
-       [] E.ev \in {"Reconfig", "Crash"} -> asked' = <<>> /\ UNCHANGED tc
-       [] OTHER            -> UNCHANGED <<tc, asked>>
+                              /\ askFailed' = IF E.hook = "customize" /\ E.code # 200 THEN askFailed \cup {CacheKey(E.req.parent)} ELSE askFailed
+       [] E.ev \in {"Reconfig", "Crash"} -> asked' = <<>> /\ askFailed' = {} /\ UNCHANGED tc
+       [] OTHER            -> UNCHANGED <<tc, asked, askFailed>>
 Spec == Init /\ [][Next]_vars
 TraceAccepted == TLCGet("stats").diameter - 1 = N
 =============================================================================
